@@ -241,14 +241,23 @@ def _group_codec(ctx, rep, ci, row, key, where):
         if size is None or not entails_eq(rp.facts, Lin.of_term(("len", ("var", vname))) - Lin.of_const(size)):
             ok_len = False
         validated = isbytes = False
-        for ev in p.events:
-            if ev.kind != "test" or ev.data is not True or not isinstance(ev.node, ast.Call):
+        for k, ev in enumerate(p.events):
+            if ev.kind != "test" or ev.data is not True:
                 continue
-            c = call_chain(ev.node) or ()
-            if c == ("self", "read_value") and len(ev.node.args) == 1 and isinstance(ev.node.args[0], ast.Call) \
-                    and norm(ev.node.args[0].func) == "ProtocolResponse" and ev.node.args[0].args and norm(ev.node.args[0].args[0]) == vname:
+            node = ev.node
+            if isinstance(node, ast.Name):
+                # a local holding the result of the call: the last assignment to it on this path
+                for prev in reversed(p.events[:k]):
+                    if prev.kind == "stmt" and isinstance(prev.node, ast.Assign) and any(isinstance(t, ast.Name) and t.id == node.id for t in prev.node.targets):
+                        node = prev.node.value
+                        break
+            if not isinstance(node, ast.Call):
+                continue
+            c = call_chain(node) or ()
+            if c == ("self", "read_value") and len(node.args) == 1 and isinstance(node.args[0], ast.Call) \
+                    and norm(node.args[0].func) == "ProtocolResponse" and node.args[0].args and norm(node.args[0].args[0]) == vname:
                 validated = True
-            if c == ("isinstance",) and len(ev.node.args) == 2 and norm(ev.node.args[0]) == vname and norm(ev.node.args[1]) == "bytes":
+            if c == ("isinstance",) and len(node.args) == 2 and norm(node.args[0]) == vname and norm(node.args[1]) == "bytes":
                 isbytes = True
         if not validated:
             ok_validate = False
